@@ -10,14 +10,82 @@ P = {}
 def reg(pid, technique, text, note=TB, ref="8"):
     P[pid] = dict(technique=technique, text=text, note=note, ref="DESIGN.md section %s, %s" % (ref, pid))
 
-reg("C01", "Coq theorems on the library model (status decoding for all statuses, cached-status stability and system-call footprint of wait for all worlds) + model/implementation correspondence on generated histories + trace monitor",
-    "proof + correspondence. Proved in Coq for all inputs/worlds: parse_status decodes every exit code and terminating signal; once a status is cached wait/terminate/kill/stop return it with no system call, event or time (any fault plan, latency plan, child behaviour); a wait's only system calls are poll(exit pipe), clock, waitpid(handle pid), close(exit pipe), calloc/free. Not proved (decided by the tie only): 'never early' and 'reaped exactly once' as whole-history statements about the world's process table; these are checked by the monitor on every implementation run of the endings x histories families.")
-reg("C06", "Coq footprint theorems (every kill/waitpid of terminate/kill/wait/stop/destroy names the handle's pid, signals are 15 or 9, none once a status is cached; for all worlds) + correspondence + trace monitor with fault enumeration on start",
-    "proof + correspondence. Proved for every world and outcome: the system-call footprint of terminate, kill, wait, stop and destroy (C06_*_targets), the shape of kill/waitpid events, no-op after reap, rejection before start. Not proved: that the pid stored by a successful start is the positive pid of the forked child (start's post-condition) — decided by the monitor over the single- and pair-fault enumeration of start on the implementation.")
+SIMTB = TB
+def sim(pid, proved, notproved, tie, tech):
+    reg(pid, tech, "proof + correspondence. PROVED in Coq (every world: any fault plan, latency plan, child behaviour; Print Assumptions closed): %s NOT PROVED, decided by the tie on the implementation only: %s TIE: %s Monitors are evaluated on every implementation run; a model/implementation difference in the property's projection or a broken proof obligation is a VIOLATION (with the failing scenario when a monitor fails, else no-failing-input-found)." % (proved, notproved, tie))
+
+sim("C01", "parse_status decodes every exit code and terminating signal; once a status is cached wait/terminate/kill/stop return it with no system call, event or time; the system-call footprint of wait.",
+    "'never early' and 'reaped exactly once' as statements about the world's process table over whole histories.",
+    "endings (exit codes, terminating signals, SIGTERM handlers) x call-order templates, EINTR/ENOMEM injected at every call inside wait/stop/destroy, random histories.",
+    "Coq theorems on the library model + model/implementation correspondence in a simulated world + trace monitor")
+sim("C02", "the world's pipe is a FIFO of byte positions (take = prefix, exactly min(n, available), append at the back); read()==0 with positive size is the only result mapped to the closed-stream error; that error closes the stream for good (sticky), any other result leaves the handle untouched; same for write/EPIPE.",
+    "end-to-end delivery 'every byte the child writes is returned once, in order' over whole schedules (needs the scheduler invariants of the world).",
+    "payload sizes straddling 4096/65536/1 MiB x buffer sizes incl. 0 x blocking/nonblocking x stream layouts; stdin writes; start-up input; EINTR/EIO at every call of reads/writes; byte content checked at the stub boundary.",
+    "Coq theorems (pipe FIFO, stream closure) + correspondence + offset-continuity monitor")
+sim("C03", "environment = parent entries then extra entries in order (strv_concat); relative-path test; every store of path_prepend_cwd is inside its allocation for every cwd/path length and growth step, and the growth loop terminates.",
+    "that the exec image's argv/env/cwd/program equal the request (goes through fork and exec in the world).",
+    "random byte strings for argv/env, cwd lengths around multiples of 4096, program forms (bare, absolute, relative, ./), wd none/absolute/relative; heap canaries on every allocation of the real code.",
+    "Coq theorems (buffer arithmetic, environment order) + correspondence + exec-image monitor")
+sim("C04", "handle state as a function of start's result (negative: not started, all fields invalid; positive: running; zero: in child), the exit block, rejection of a started handle, no effect at all for invalid options on a fresh handle.",
+    "descriptor/heap/child residue and the reported cause under every fault plan (the errno flow through both sides of fork).",
+    "every call index of 17 option scenarios x errnos (singles exhaustively, pairs sampled), followed by pid / second start / destroy.",
+    "Coq theorems (life-cycle of start) + fault enumeration against the implementation")
+sim("C05", "the regenerated ownership table of redirect_destroy is the documented one; foreign types cause no system call; the single close helper; the post-start API closes only descriptors stored in the handle and never the invalid marker; failed start owns nothing.",
+    "balance of whole histories (descriptor table, heap ledger, children) under every fault plan.",
+    "single-fault enumeration + pairs + random histories with sprinkled faults + closed-FILE streams, all ending in destroy; close-discipline automaton on the parent's trace.",
+    "Coq theorems (ownership table, close footprints) + fault enumeration + ledger monitors")
+sim("C06", "every kill/waitpid made by terminate/kill/wait/stop/destroy names the pid stored in the handle, signals are SIGTERM/SIGKILL, none once a status is cached, rejection before start.",
+    "that the pid stored by a successful start is the positive pid of the forked child.",
+    "start fault enumeration (incl. allocation failures) followed by terminate/kill/wait/stop/destroy; random histories.",
+    "Coq footprint theorems + correspondence + target monitor")
+sim("C07", "the loop equations (act, wait(timeout), stop on anything but a time-out; noop keeps the previous result), the regenerated action table, a non-negative result is always the cached status of a reaped child, all-noop = wait(deadline)+terminate(infinite), footprint.",
+    "order/once of the signals as a trace property; per-wait time bounds (virtual time).",
+    "all 5^3 action triples x time-out patterns x 8 child behaviours x deadlines; EINTR after partial blocking at every call of stop; random triples with latencies.",
+    "Coq theorems (stop loop) + exhaustive action-triple correspondence + timing monitor")
+sim("C08", "expiry: infinite iff both infinite, deadline marker iff expired, else min(timeout, time left), never longer than either; find_earliest_deadline (one clock instant): picks a source with minimal remaining time for every order of sources with NULL and deadline-less sources anywhere, the first expired one at once.",
+    "the bound on the OS poll's blocking time over the world's scheduler; the clock instants of the loop coinciding.",
+    "1-3 sources of 6 kinds in every order x 5 time-outs x activity times; wait grids; fork mode; EINTR after partial blocking.",
+    "Coq theorems (expiry arithmetic, earliest-deadline selection) + exhaustive layout correspondence + timing monitor")
+sim("C09", "events of a source are a subset of its interests, each bit means the OS reported an event on that valid pipe, the deadline bit is never produced by the mapping, NULL sources are silent, the count, the closed-pipe test.",
+    "that the OS-level readiness the world reports is what Linux reports (world model), soundness/completeness through the probes.",
+    "stream-state lattice (15 states) x 5 option sets x 16 masks with read/write/wait(0) probes; two-source layouts; random histories.",
+    "Coq theorems (event-bit mapping) + state-lattice correspondence + probe monitor")
+sim("C10", "per-type constructor facts (HANDLE/STDOUT make no call and yield the caller's/child's descriptor; DISCARD/PATH open flags; PIPE ends by direction), a parent end exists only for PIPE, the regenerated installation order.",
+    "that descriptors 0/1/2 of the exec image refer to the requested objects (child side of fork: dup2/close-on-exec logic).",
+    "all 7x7x8 type combinations + shorthands with std descriptors open, and x the 7 closed-std layouts; closed parent FILE streams.",
+    "Coq theorems (redirect constructors) + exhaustive configuration correspondence + image monitor")
+sim("C11", "the regenerated keep list, the loop range covers every number up to limit-1, kept descriptors are skipped without a call, get_max_fd.",
+    "that the image's descriptor set is {0,1,2,exit} for every parent table (child side of fork).",
+    "random descriptor tables incl. limit-1/limit-2/dense, limits 8..256, flags random, sibling handles, limit raised between starts, huge/infinite limits.",
+    "Coq theorems (keep list, loop range) + random-table correspondence + image-descriptor monitor")
+sim("C12", "the regenerated reset-loop bounds cover signals 1..31, EINVAL tolerated only, the block-all set, exec keeps only ignored dispositions (world).",
+    "that every return path of start restores mask/dispositions/cwd/environment (parent side of process_fork under faults).",
+    "4 masks x 3 disposition tables x single-fault enumeration of 17 start scenarios.",
+    "Coq theorems (signal tables) + masks x faults correspondence + caller-state monitor")
+sim("C14", "the life-cycle automaton: new; start transitions by sign of result and rejection of started handles; wait/stop cache a status only on success; not-started and in-child rejections with untouched world; closed-stream errors; idempotent close; bad arguments; exited handles inert.",
+    "absence of crashes/UB in the C text itself (observed only: crash isolation, heap canaries).",
+    "random histories over the whole API with 1-3 handles, NULL handles/buffers, bad stream numbers, invalid/failing starts, fork mode.",
+    "Coq theorems (life-cycle automaton of the model) + random-history correspondence + result-class monitor")
+sim("C15", "destroy = stop(stored policy) iff running, then close the six fields, then free (equation); footprint in every state; no stop action unless running; the default policy is wait(deadline)+terminate(infinite).",
+    "'never abandons a running child' and 'SIGTERM only after the deadline' as timing statements over the world.",
+    "7 policies x 3 deadlines x 8 behaviours x 5 pre-histories; every handle state; failed start then restart; random histories.",
+    "Coq theorems (destroy) + policy-grid correspondence + signal-timing monitor")
+sim("C16", "string sink over explicit buffers: appends exactly old ++ chunk ++ NUL with exact size, from NULL, ENOMEM leaves the string untouched, accumulation of any chunk sequence; drain's initial calls and loop round, run_ex composition (equations).",
+    "the sink-call protocol over whole schedules of the two streams.",
+    "volumes/interleavings x stderr modes x failing sinks x deadlines; exact-buffer-then-quiet; run_ex/run with single faults; UNIT tie: the real sink_string vs the Coq model (vm_compute) on seeded histories with scripted realloc failures.",
+    "Coq theorems (string sink, drain loop) + correspondence + unit tie of the real sink")
+sim("C17", "start-up input forces nonblocking mode before its first write, stops at the first error, closes stdin afterwards; the mode is applied to the parent's end; one F_GETFL/F_SETFL pair.",
+    "that a nonblocking descriptor never blocks (world model of Linux); blocking minimality.",
+    "pipe states x sizes around capacity x child idleness; start-up input sizes with 64 KiB and small (4-16 KiB) pipes.",
+    "Coq theorems (nonblocking mechanism) + pipe-state correspondence + blocked-time monitor")
 reg("C13", "Coq proof that the model of options.c rejects exactly the documented-invalid options and resolves the documented effective redirects (all values) + exhaustive unit correspondence of parse_redirect/parse_options (16M rows) + start-level monitor (no pipe/open/fork before rejection)",
-    "proof + exhaustive correspondence. C13_reject_iff / C13_effective / C13_resolved hold for all Z-valued types, handles, files and paths; the C functions are run on a complete set of representatives justified by C13_validation_pure; the 'before any resource' clause is checked through reproc_start in the simulated world.")
+    "proof + exhaustive correspondence. C13_reject_iff / C13_effective / C13_resolved hold for all Z-valued types, handles, files and paths; the C functions are run on a complete set of representatives justified by C13_validation_pure; the 'before any resource' clause is proved for a fresh handle (C04_invalid_options_no_effect) and checked through reproc_start in the simulated world.")
 reg("C18", "Coq proof by induction (all strings, unbounded) that the Windows splitting rules invert argv_join, that computed sizes equal written lengths, and of the environment block shape + exhaustive correspondence with process.windows.c compiled unchanged against a stub windows.h (ASan/canaries)",
     "proof + exhaustive correspondence up to the stated lengths. The Windows argument-splitting rules (win_split) and the stub Win32 calls are modelled, not verified (assumption A9).")
+reg("C19", "Coq theorems closed by computation over tables REGENERATED from reproc.cpp/reproc.hpp/reproc.h by the translator (positional initialisers, enums, clone, error-code model for all Z) + the compiled wrapper driven against an interposed C API",
+    "proof over regenerated data + correspondence. A changed initialiser, enum or clone assignment breaks a proof obligation; semantics the tables cannot capture (duration::count, static_cast, container conversion) are covered by the tie only.")
+reg("C20", "Coq theorems: read/write footprints on the handle are disjoint and operations frame other handles + static scan for shared mutable globals + ThreadSanitizer runs (search only)",
+    "PARTIAL proof + correspondence. PROVED: reproc_read ignores and preserves the stdin field, reproc_write the output fields (so they commute on the handle), neither writes status/pid/exit pipe; every post-start operation's footprint names only its own handle's pid and descriptors. NOT PROVABLE with this technique: data-race freedom of the compiled C under preemption (C11 memory model, libc internals) — searched by ThreadSanitizer runs and a scan of the compiled objects for writable non-TLS static storage; the concurrent-start clause is represented by multi-handle scenarios in the simulated world.")
 order = ["C%02d" % i for i in range(1, 21)]
 checks = []
 for pid in order:
